@@ -42,6 +42,7 @@ struct PipeState {
     wcalls: usize,
     rcalls: usize,
     short_writes: u64,
+    vectored_calls: u64,
     wpendings: u64,
     rpendings: u64,
     backpressure: u64,
@@ -126,6 +127,15 @@ impl AsyncWrite for PipeWriter {
             w.wake();
         }
         Poll::Ready(Ok(accept))
+    }
+    fn is_write_vectored(&self) -> bool {
+        self.plan.vectored
+    }
+    fn poll_write_vectored(mut self: Pin<&mut Self>, cx: &mut Context<'_>, bufs: &[io::IoSlice<'_>]) -> Poll<io::Result<usize>> {
+        // the same acceptance rules as poll_write, applied to the concatenation of the slices
+        let all: Vec<u8> = bufs.iter().flat_map(|b| b.iter().copied()).collect();
+        self.st.borrow_mut().vectored_calls += 1;
+        self.as_mut().poll_write(cx, &all)
     }
     fn poll_flush(self: Pin<&mut Self>, _: &mut Context<'_>) -> Poll<io::Result<()>> {
         Poll::Ready(Ok(()))
@@ -876,7 +886,9 @@ impl Scenario for Pipe {
             sched: (0..rng.range(1, 12)).map(|_| if rng.chance(1, 12) { 240 + rng.below(4) as u8 } else { rng.below(8) as u8 }).collect(),
             werr_at: None,
             indent: if rng.chance(1, 3) { Some((*rng.pick(&[b' ', b'\t']), rng.below(10) as u8)) } else { None },
+            vectored: false,
         };
+        p.pipe.vectored = rng.chance(1, 3);
         if !p.pipe.sched.iter().any(|&c| c < 240) {
             p.pipe.sched.push(0);
         }
@@ -1008,6 +1020,7 @@ impl Scenario for Pipe {
         let ps = state.borrow();
         st.ticks += es.ticks;
         st.add("fault.short_write", ps.short_writes);
+        st.add("async_sink.write_vectored_calls", ps.vectored_calls);
         st.add("fault.write_pending", ps.wpendings);
         st.add("fault.read_pending", ps.rpendings);
         st.add("fault.backpressure_pending", ps.backpressure);
